@@ -50,7 +50,7 @@ class C16Machine(Machine):
            "cell_with_sep", "cell_with_quote", "cell_with_newline", "cell_with_cr", "ambiguous_cell_both",
            "target_column_last", "str_path", "pd_target_column", "later_row_also_fails",
            "result_missing_empty_cell", "target_cell_changed", "pd_missing_is_na", "pd_strict_raised",
-           "zero_rows", "fault_in_other_column"]
+           "zero_rows", "fault_in_other_column", "ambiguous_mode_converted_cell"]
     )
 
     @classmethod
@@ -122,13 +122,18 @@ class C16Machine(Machine):
         compressing = func in ("file_compress", "pd_compress", "pd_standardize_uri")
         if func == "pd_standardize_prefix":
             return {"canon": r.prefix, "syn": rng.choice(r.prefix_synonyms or [r.prefix]), "unknown": "zz",
-                    "both": r.prefix, "empty": "", "nodelim": "zz"}[cls_]
+                    "both": r.prefix, "empty": "", "nodelim": "zz", "other_kind": r.uri_prefix}[cls_]
         if cls_ == "canon":
             return (r.uri_prefix + ident) if compressing else (r.prefix + d + ident)
         if cls_ == "syn":
             if compressing:
                 return rng.choice(r.uri_prefix_synonyms or [r.uri_prefix]) + ident
             return rng.choice(r.prefix_synonyms or [r.prefix]) + d + ident
+        if cls_ == "other_kind":
+            # a CURIE where URIs are expected and vice versa: what ambiguous=True is for
+            if compressing:
+                return rng.choice(r.prefix_synonyms or [r.prefix]) + d + ident
+            return rng.choice(r.uri_prefix_synonyms or [r.uri_prefix]) + ident
         if cls_ == "unknown":
             return ("http://unknown.example/" + ident) if compressing else ("zz" + d + ident)
         if cls_ == "both":
@@ -148,7 +153,7 @@ class C16Machine(Machine):
             row = []
             for c in range(width):
                 if c == col:
-                    cls_ = rng.choice(["canon", "canon", "syn", "unknown", "both", "empty", "nodelim"])
+                    cls_ = rng.choice(["canon", "canon", "syn", "unknown", "both", "empty", "nodelim", "other_kind"])
                     row.append(self._cell(rng, func, cls_))
                 else:
                     row.append(rng.choice(NASTY) if rng.random() < cfg["p_nasty"] else "v" + str(rng.randint(0, 9)))
@@ -467,6 +472,8 @@ class C16Machine(Machine):
             self.probe("result_missing_empty_cell")
         if any(old.startswith("amb" + conv.delimiter) for _, _, old in expected_rows):
             self.probe("ambiguous_cell_both")
+        if amb and any(v is not None and new[col] != old for new, v, old in expected_rows):
+            self.probe("ambiguous_mode_converted_cell")
         if rows and col == len(rows[0]) - 1 and col > 0:
             self.probe("target_column_last")
         if changed and quoting:
